@@ -25,7 +25,9 @@ class DeflateZipModel(JWEZipModel):
         else:
             decompressor = zlib.decompressobj(-zlib.MAX_WBITS)
         value = decompressor.decompress(s, MAX_SIZE)
-        if decompressor.unconsumed_tail:
+        # the limit was exceeded if input is left unread, or if zlib still holds output
+        # (a match that straddles the limit leaves no unconsumed input behind)
+        if decompressor.unconsumed_tail or decompressor.decompress(b"", 1):
             raise ExceededSizeError(f"Decompressed string exceeds {MAX_SIZE} bytes")
         return value
 
